@@ -252,7 +252,7 @@ func child(a lib.Args) {
 	}
 	for i := from; i < len(jobs); i++ {
 		j := jobs[i]
-		if skip[j.kind] {
+		if skip[j.kind] || lost[j.kind] >= 3 {
 			// two cases of this kind already ended the process or hung: the rest is not run
 			continue
 		}
